@@ -3,6 +3,8 @@ import DimodProofs.DqmFile
 import DimodProofs.JsonContracts
 import DimodProofs.HeaderContracts
 import DimodProofs.ZipEnd
+import DimodProofs.CqmClosed
+import DimodProofs.DqmClosed
 
 /-! # C10 — a truncated model file never loads as a different model -/
 
@@ -283,5 +285,99 @@ theorem truncation_safe_dqm_zip (parse : Bytes → Option (Bool × H)) (parseVar
   rcases hp with hp | hp
   · rw [if_pos hp]; exact hall k hk
   · subst hp; simpa using hall k hk
+
+/-! ## round 7: truncation over the real byte layout; the end-record search with and without the side condition -/
+
+/-- **the backward search finds the record the writer put at the end** — always, whatever the payload: for a file
+    `w ++ e` ending in a well-formed 22-byte end record `e`, `_EndRecData` returns `e` at offset `w.length`
+    (first branch: the last 22 bytes), even when `w` contains other records.  Together with
+    `zip_prefix_rejected` (no PROPER PREFIX has one when the signature occurs only in `e`) this is the
+    end-record search in full under the side condition. -/
+theorem end_record_found (w e : Bytes) (hlen : e.length = 22) (hsig : e.take 4 = sigEOCD) (hz : e.drop 20 = [0, 0]) :
+    endRecData (w ++ e) = some ⟨w.length, e⟩ :=
+  endRecData_full w e hlen hsig hz
+
+/-- **without the side condition**: a payload that spells an end record `e'` (comment length `0`) is found as THE end
+    record of the file cut right after it — `_EndRecData` cannot tell a truncated file whose payload ends in a record
+    from a complete archive.  (For every `a`, `b`: the first `a.length + 22` bytes of `a ++ e' ++ b`.) -/
+theorem embedded_end_record_found (a e' b : Bytes) (hlen : e'.length = 22) (hsig : e'.take 4 = sigEOCD) (hz : e'.drop 20 = [0, 0]) :
+    endRecData ((a ++ e' ++ b).take (a.length + 22)) = some ⟨a.length, e'⟩ := by
+  have : (a ++ e' ++ b).take (a.length + 22) = a ++ e' := by
+    rw [List.take_left' (by simp [hlen])]
+  rw [this]
+  exact endRecData_full a e' hlen hsig hz
+
+/-- … and when the payload spells a COMPLETE archive (local entries, central directory and end record of other
+    members `zs`, written for any offset `base ≤ pre.length`), the file cut right after it OPENS and yields those other
+    members: `zipfile` shifts every offset by `concat = pre.length - base`.  This is the mechanism of the defect found
+    in round 7 (`ConstrainedQuadraticModel.from_file` / `DiscreteQuadraticModel.from_file` returned the embedded
+    model for a truncated file; repaired in dimod by checking that the members tile the file from the header on / that
+    the `BIAS` section has its recorded length): the side condition of the truncation theorems cannot be dropped for
+    the loaders as they were. -/
+theorem embedded_archive_opens (crc32 : Bytes → Nat) (inflate : Bytes → Option Bytes) (pre : Bytes) (base : Nat) (zs : List ZEntry)
+    (hbase : base ≤ pre.length) (hz : ∀ z ∈ zs, z.OK crc32 inflate) (hcount : zs.length < 256 ^ 2)
+    (hsize : pre.length + (zipLocals zs).length + (zipCD base zs).length < 4294967295) :
+    zipOpen (readDirBytes crc32 inflate) (pre ++ zipBytes base zs) = some (zs.map fun z => (z.name, z.content)) := by
+  have h256 : (256 : Nat) ^ 4 = 4294967296 := by decide
+  obtain ⟨a, b, c⟩ := eocdRecord_shape zs.length (zipCD base zs).length (base + (zipLocals zs).length)
+  obtain ⟨d, _, _⟩ := eocdRecord_fields zs.length (zipCD base zs).length (base + (zipLocals zs).length)
+    (pre ++ (zipLocals zs ++ zipCD base zs)).length (by omega) (by omega) hcount
+  have hfile : pre ++ zipBytes base zs = (pre ++ (zipLocals zs ++ zipCD base zs)) ++
+      eocdRecord zs.length (zipCD base zs).length (base + (zipLocals zs).length) := by
+    simp [zipBytes, List.append_assoc]
+  rw [hfile]
+  exact zipOpen_full _ _ _ _ a b c (by rw [d]; simp only [List.length_append]; omega)
+    (readDirBytes_zipBytes_shift crc32 inflate pre base zs hbase hz hcount (by omega))
+
+/-- **CQM files cut at any byte offset, closed**: for every CQM in the format's domain whose file contains the end-record
+    signature only in its last 22 bytes, every proper prefix of the bytes `to_file` writes (header dictionary, members,
+    local headers, central directory, end record — `dumpCqm`) makes the whole modelled `from_file` raise; nothing loads.
+    No parameter stands for `zipfile`, `json.loads` or a parse function. -/
+theorem truncation_safe_cqm_closed (crc32 : Bytes → Nat) (inflate : Bytes → Option Bytes) (deflate : Option (Bytes → Bytes))
+    (μ : Nat → ZMeta) (s : CqmSrc) (hd : s.InDomain)
+    (hocc : ∀ i, SigAt (dumpCqm crc32 deflate μ s) i → (dumpCqm crc32 deflate μ s).length ≤ i + 22)
+    (k : Nat) (hk : k < (dumpCqm crc32 deflate μ s).length) :
+    (∃ e, loadCqm crc32 inflate ((dumpCqm crc32 deflate μ s).take k) = .err e) ∧
+    loadCqmSrc crc32 inflate ((dumpCqm crc32 deflate μ s).take k) = none := by
+  obtain ⟨e, he⟩ := truncation_safe_cqm_zip (readDirChars crc32 inflate) parseExprHeader (fun d => (loadsJ d).isSome) 8
+    (cqmCounts s.content.erase) (zipBytes (cqmFileHeader s).length (mkEntries crc32 deflate μ 0 (cqmMembers 4 s.content)))
+    hd.hdrLen hocc k hk
+  refine ⟨⟨e, he⟩, ?_⟩
+  unfold loadCqmSrc
+  have he' : loadCqm crc32 inflate ((dumpCqm crc32 deflate μ s).take k) = .err e := he
+  rw [he']
+
+/-- **DQM files cut at any byte offset, closed**: header, `BIAS` frame, `.npz` blob (`.npy` headers and data, ZIP container
+    at byte level, the end record located by the modelled `_EndRecData`), `from_numpy_vectors`, `VARS` — every proper
+    prefix of the bytes `to_file` writes raises or returns the original DQM with only padding of the `VARS` section lost,
+    provided the end-record signature occurs in the blob only in its last 22 bytes. -/
+theorem truncation_safe_dqm_closed (crc32 : Bytes → Nat) (inflate : Bytes → Option Bytes) (deflate : Option (Bytes → Bytes))
+    (μ : Nat → ZMeta) (ignore : Bool) (c : DqmContent) (labels : List FLabel)
+    (wf : DqmWF c) (hnpy : ∀ m ∈ dqmMembers c, m.OK) (hl : JOKs (serializeLabels labels)) (hn : labels.length = c.caseStarts.length)
+    (hcrc : ∀ b, crc32 b < 256 ^ 4) (hcodec : ∀ d, deflate = some d → ∀ b, inflate (d b) = some b) (hμ : ∀ i, (μ i).OK)
+    (hfit : ∀ m ∈ npzArchive (dqmMembers c), MemberFits deflate m)
+    (hsize : (npzBytes crc32 deflate μ (dqmMembers c)).length < 4294967295)
+    (hocc : ∀ i, SigAt (npzBytes crc32 deflate μ (dqmMembers c)) i → (npzBytes crc32 deflate μ (dqmMembers c)).length ≤ i + 22)
+    (hlen : (dumpsDict (dqmCountsDict (dqmCounts c) (dqmVariablesFlag ignore labels))).length + 65 < 2 ^ 32)
+    (hvlen : (dumpsJ (.arr (serializeLabels labels))).length + 64 < 256 ^ nlb4) :
+    ∃ pad, pad < 64 ∧ ∀ k, k < (dumpDqm crc32 deflate μ ignore c labels).length →
+      (∃ er, (dqmDecode parseDqmHeader parseVarsReal
+          (fun blob => (zipOpen (readNpzBytes crc32 inflate) blob).bind fun ms => match dqmFromMembers ms with | .ok d => some d | _ => none)
+          (fun d => d.caseStarts.length)).run ((dumpDqm crc32 deflate μ ignore c labels).take k) = .err er) ∨
+      ((dqmDecode parseDqmHeader parseVarsReal
+          (fun blob => (zipOpen (readNpzBytes crc32 inflate) blob).bind fun ms => match dqmFromMembers ms with | .ok d => some d | _ => none)
+          (fun d => d.caseStarts.length)).run ((dumpDqm crc32 deflate μ ignore c labels).take k) =
+            .ok ((dqmCountsDict (dqmCounts c) (dqmVariablesFlag ignore labels), c,
+                  if dqmVariablesFlag ignore labels then some (serializeLabels labels) else none), []) ∧
+        (dumpDqm crc32 deflate μ ignore c labels).length - pad ≤ k) := by
+  obtain ⟨x, e, hxe, h22, hsig, hz, hdir, _, hnpz, _⟩ :=
+    readDqmBlob_npz crc32 inflate deflate μ c wf hnpy hcrc hcodec hμ hfit hsize
+  have h256 : (256 : Nat) ^ 4 = 4294967296 := by decide
+  unfold dumpDqm
+  rw [hxe] at hocc hsize ⊢
+  exact truncation_safe_dqm_zip parseDqmHeader parseVarsReal (readNpzBytes crc32 inflate) _ x e (varsTextOf labels) _ _ c
+    (serializeLabels labels) (dqm_header_ok _ _ hlen) wf h22 hsig hz
+    (fun i hi => by have := hocc i hi; simp only [List.length_append] at this; omega) hdir hnpz (by omega)
+    (fun _ => ⟨VarsOK_real _ hl hvlen, by rw [serializeLabels_length, hn]⟩)
 
 end C10
